@@ -141,8 +141,8 @@ def replay_reserved_rows(index, ob, seed, saved=None):
     rtf = index.real_module("rtflite")
     ds = index.real_module("rtflite.services.document_service").RTFDocumentService()
     df = pl.DataFrame({"g": ["A", "B"], "x": ["1", "2"]})
-    for sub, nhdr, foot, src, pf, ps in itertools.product((False, True), (0, 1, 2), (False, True), (False, True), ("first", "last", "all"), ("first", "last", "all")):
-        case = {"subline_by": sub, "headers_with_text": nhdr, "footnote": foot, "source": src, "page_footnote": pf, "page_source": ps}
+    for sub, nhdr, foot, src, pf, ps, subline_par in itertools.product((False, True), (0, 1, 2), (False, True), (False, True), ("first", "last", "all"), ("first", "last", "all"), (False, True)):
+        case = {"subline_by": sub, "headers_with_text": nhdr, "footnote": foot, "source": src, "page_footnote": pf, "page_source": ps, "rtf_subline": subline_par}
         if saved is not None and case != saved.get("input", saved):
             continue
         kw = {}
@@ -150,6 +150,8 @@ def replay_reserved_rows(index, ob, seed, saved=None):
             kw["rtf_footnote"] = rtf.RTFFootnote(text="fn")
         if src:
             kw["rtf_source"] = rtf.RTFSource(text="src")
+        if subline_par:
+            kw["rtf_subline"] = rtf.RTFSubline(text="a subline paragraph")          # a paragraph above the table: not a table row, nothing to reserve
         hdrs = [rtf.RTFColumnHeader(text=["G", "X"] if not sub else ["X"]) for _ in range(nhdr)] or [rtf.RTFColumnHeader()]
         try:
             doc = rtf.RTFDocument(df=df, rtf_page=rtf.RTFPage(page_footnote=pf, page_source=ps), rtf_body=rtf.RTFBody(subline_by=["g"] if sub else None),
